@@ -42,7 +42,7 @@ def generate(seed, tier="quick"):
     vals = []
     seen = set()
     while len(vals) < n + 8:
-        v = round(r.gauss(0.0, scale), 9)
+        v = round(max(-0.9 * x0, r.gauss(0.0, scale)) + r.random() * 1e-6, 9)
         if v not in seen:
             seen.add(v)
             vals.append(v)
@@ -53,7 +53,7 @@ def generate(seed, tier="quick"):
     ncv = r.choice([0, 0, 1, 1, 2, 3])
     controls = []
     for j in range(ncv):
-        ck = r.choice(["forward", "call", "put"]) if k == 1 else r.choice(["call", "put"])
+        ck = r.choice(["forward", "call", "put", "logfwd"]) if k == 1 else r.choice(["call", "put"])
         cst = [round(x0 * r.uniform(0.7, 1.3), 6) for _ in range(k)]
         controls.append({"kind": ck, "strikes": cst, "notional": r.choice([1.0, 1.0, 2.0]),
                          "price_mode": r.choice(["sample_mean", "exact_plus_noise", "off"])})
@@ -61,7 +61,7 @@ def generate(seed, tier="quick"):
     warm_n = None if warm is None else {"more": n + r.choice([1, 3, 17]), "fewer": max(1, n - r.choice([1, 2, 5])), "same": n}[warm]
     warm_vals = []
     while warm_n is not None and len(warm_vals) < warm_n + 4:
-        v = round(r.gauss(0.0, scale), 9)
+        v = round(max(-0.9 * x0, r.gauss(0.0, scale)) + r.random() * 1e-6, 9)
         if v not in seen:
             seen.add(v)
             warm_vals.append(v)
@@ -136,6 +136,10 @@ def shrink_candidates(sc):
 # ---- reference payoffs (independent of rpylib.product.payoff) -------------------------------------
 def _ref_payoff(kind, strikes, s):
     k = np.asarray(strikes, dtype=float)
+    if kind == "logfwd":
+        # log-contract: control on another underlying (LogSpot) than the payoff's (Spot): its value is recomputed from
+        # the path by the engine instead of being implied from the payoff underlying
+        return np.log(s) - np.log(k)
     if kind == "call":
         return np.maximum(s - k, 0.0)
     if kind == "put":
@@ -192,8 +196,15 @@ def execute(wd, sc):
                       maturity=sc["maturity"], notional=sc["notional"])
     cv = None
     if sc["controls"]:
-        cv_products = [Product(payoff_underlying=Spot(), payoff=_mk_payoff(c["kind"], c["strikes"]),
+        from rpylib.product.underlying import LogSpot
+        from rpylib.product.payoff import Forward as _Fwd
+
+        cv_products = [Product(payoff_underlying=LogSpot(), payoff=_Fwd(strike=float(np.log(c["strikes"][0]))),
+                               maturity=sc["maturity"], notional=c["notional"]) if c["kind"] == "logfwd" else
+                       Product(payoff_underlying=Spot(), payoff=_mk_payoff(c["kind"], c["strikes"]),
                                maturity=sc["maturity"], notional=c["notional"]) for c in sc["controls"]]
+        if any(c["kind"] == "logfwd" for c in sc["controls"]):
+            wd.probes["c07.control_on_other_underlying"] += 1
         cv = ControlVariates(cv_products, cv_prices)
         wd.probes["c07.with_controls"] += 1
     cfg = ConfigurationStandard(mc_paths=n, seed=sc["seed"], control_variates=cv,
